@@ -3,6 +3,7 @@ import Katib.Drv.C11
 import Katib.Drv.Status
 import Katib.Drv.Sim
 import Katib.Drv.C19
+import Katib.Drv.C15
 import Katib.Oracle.Sim
 open Katib Katib.Drv
 
@@ -13,6 +14,7 @@ def handle (toks : List String) : String :=
   | "C05" :: r => handleStatus r
   | "C03" :: r => handleStatus r
   | "C19" :: r => handleC19 r
+  | "C15" :: r => handleC15 r
   | _ => "bad-op"
 
 /-- oracle verdict for one `op => observed-output` line -/
@@ -22,6 +24,7 @@ def handleOracle (toks out : List String) : String :=
   | "C05" :: r => oracleLineStatus "C05" r out
   | "C03" :: r => oracleLineStatus "C03" r out
   | "C19" :: r => oracleLineC19 r out
+  | "C15" :: r => oracleLineC15 r out
   | _ => "bad-op"
 
 def splitArrow (toks : List String) : List String × List String :=
